@@ -16,23 +16,30 @@ operations and the server RPCs, so "ALL op sequences" mixes both levels freely.
 -/
 namespace ScVerif.C19
 
-/-- **C19_inv.** After ANY operation sequence from a new model:
+/-- **C19_inv.** After ANY operation sequence from a model configured with ANY initial modes
+(`WithInitialMode`) and ANY placeholder active mode (`WithInitialActiveMode`) — `NewModel()` is
+`modes = []`, `active = Mode.blank` — provided the configuration is `InitOk` (distinct ids, at most one normal
+mode: the code does not check its options):
 I1 at most one mode is normal (count form and "any two normal modes are equal");
-I3 once the active mode was changed it refers to a stored mode;
+I3 once the active mode was changed it refers to a stored mode; before that it is the placeholder;
 mode ids stay unique.  (I2 is `C19_I2_*` below: a delete of the active id is refused, so with I3 the
 active mode is never deleted.) -/
-theorem C19_inv (ops : List Op) :
-    let s := run St.init ops
+theorem C19_inv (modes : List Mode) (active : Mode) (hcfg : InitOk modes) (ops : List Op) :
+    let s := run (St.config modes active) ops
     (s.modes.filter (·.normal)).length ≤ 1 ∧
     (∀ x ∈ s.modes, ∀ y ∈ s.modes, x.normal = true → y.normal = true → x = y) ∧
     (s.changed = true → ∃ x ∈ s.modes, x.id = s.active.id) ∧
+    (s.changed = false → s.active = active) ∧
     (s.modes.map (·.id)).Nodup := by
-  have hi := run_inv inv_init ops
-  exact ⟨normal_count_le_one hi, hi.i1, hi.i3, hi.nodup⟩
+  have hi := run_inv (inv_config modes active hcfg) ops
+  exact ⟨normal_count_le_one hi, hi.i1, hi.i3, hi.blank, hi.nodup⟩
+
+/-- `NewModel()` without options is the configuration `[]`, `Mode.blank`, which is `InitOk`. -/
+theorem C19_inv_default (ops : List Op) : Inv Mode.blank (run St.init ops) := run_inv inv_init ops
 
 /-- **C19_inv, step form**: the invariant is inductive — every operation preserves it from ANY state that
 satisfies it (not only from the initial one). -/
-theorem C19_inv_step (s : St) (hi : Inv s) (op : Op) : Inv (step s op).1 := step_inv hi op
+theorem C19_inv_step (p : Mode) (s : St) (hi : Inv p s) (op : Op) : Inv p (step s op).1 := step_inv hi op
 
 /-- **I2 (Model API).** Deleting the active id is refused with FailedPrecondition and changes nothing,
 with or without allow-missing, in every state. -/
@@ -47,10 +54,9 @@ theorem C19_I2_server_delete_active_refused (s : St) (am : Bool) :
       (s, .err (if s.active.id = "" then .invalidArgument else .failedPrecondition)) := by
   by_cases h : s.active.id = "" <;> simp [step, deleteMode, h]
 
-/-- **I2, trace form.** In any run, a delete step that succeeds did not name the active mode, and after
+/-- **I2, trace form.** In any reachable state (any state satisfying the invariant), a delete step that succeeds did not name the active mode, and after
 any operation of any run the active mode (once changed) is still stored. -/
-theorem C19_I2_never_deleted (ops : List Op) (id : String) (am : Bool) :
-    let s := run St.init ops
+theorem C19_I2_never_deleted (p : Mode) (s : St) (hi : Inv p s) (id : String) (am : Bool) :
     (∀ r, (step s (.delete id am)).2 = .ok r → id ≠ s.active.id) ∧
     (∀ r, (step s (.sDelete id am)).2 = .ok r → id ≠ s.active.id) ∧
     ((step s (.delete id am)).1.changed = true →
@@ -64,7 +70,7 @@ theorem C19_I2_never_deleted (ops : List Op) (id : String) (am : Bool) :
     subst e
     rw [C19_I2_server_delete_active_refused] at h
     cases h
-  · exact (step_inv (run_inv inv_init ops) (.delete id am)).i3
+  · exact (step_inv hi (.delete id am)).i3
 
 /-- What `changeActiveMode` stores: the looked-up mode, stamped with the clock's current time when its
 id differs from the active id. -/
@@ -75,7 +81,7 @@ def stamped (s : St) (m : Mode) (now : Nat) : Mode :=
 changes nothing; with a normal mode `n` (unique by I1) it makes exactly `n` the active mode (stamped when
 the id differs), returns it, and leaves the modes alone.  For every state satisfying the invariant,
 i.e. every reachable state (`C19_inv_step`). -/
-theorem C19_clear (s : St) (hi : Inv s) (now : Nat) :
+theorem C19_clear (p : Mode) (s : St) (hi : Inv p s) (now : Nat) :
     (step s (.sClear now) = step s (.clear now)) ∧
     ((∀ x ∈ s.modes, x.normal = false) → step s (.clear now) = (s, .err .notFound)) ∧
     (∀ n ∈ s.modes, n.normal = true →
@@ -112,10 +118,13 @@ theorem C19_stamp (s : St) (id : String) (now : Nat) :
   · intro h; simp [step, h]
   · simp [step]
 
-/-- **C19_delete.** Deleting an absent mode (non-empty id) reports NotFound, unless allow-missing is set,
-in which case it succeeds; nothing changes either way.  Model API and DeleteMode RPC; every state
-satisfying the invariant. -/
-theorem C19_delete (s : St) (hi : Inv s) (id : String) (hid : id ≠ "") (habs : find s id = none) (am : Bool) :
+/-- **C19_delete.** Deleting an absent mode reports NotFound, unless allow-missing is set, in which case it
+succeeds; nothing changes either way.  Model API and DeleteMode RPC; every state satisfying the invariant.
+The id must not be the id of the configured placeholder active mode `p` (for `NewModel()`: not "", which
+the RPC rejects anyway): while that placeholder is still active, the code answers FailedPrecondition for it
+(`C19_I2_delete_active_refused`) although no such mode is stored. -/
+theorem C19_delete (p : Mode) (s : St) (hi : Inv p s) (id : String) (hp : id ≠ p.id) (hid : id ≠ "")
+    (habs : find s id = none) (am : Bool) :
     step s (.delete id am) = (s, if am then .ok none else .err .notFound) ∧
     step s (.sDelete id am) = (s, if am then .ok none else .err .notFound) := by
   have hact : id ≠ s.active.id := by
@@ -127,21 +136,38 @@ theorem C19_delete (s : St) (hi : Inv s) (id : String) (hid : id ≠ "") (habs :
     | false =>
       have := hi.blank hc
       rw [this] at e
-      exact hid e
+      exact hp e
   cases am <;> simp [step, deleteMode, hact, habs, hid]
+
+/-- **C19_placeholder.** The placeholder never counts as a mode: while nothing was changed, SetActiveMode
+and ChangeActiveMode with an id that is not stored — in particular the placeholder's own id — answer
+NotFound and change nothing; a successful one makes a STORED mode active. -/
+theorem C19_placeholder (s : St) (m : Mode) (now : Nat) :
+    (find s m.id = none → step s (.setActive m) = (s, .err .notFound) ∧
+      step s (.changeActive m.id now) = (s, .err .notFound)) ∧
+    (∀ r, (step s (.setActive m)).2 = .ok r → ∃ x ∈ s.modes, x.id = (step s (.setActive m)).1.active.id) := by
+  refine ⟨?_, ?_⟩
+  · intro h; simp [step, setActive, changeActive, h]
+  · intro r hr
+    cases hf : find s m.id with
+    | none => simp [step, setActive, hf] at hr
+    | some x =>
+      obtain ⟨hx, hid⟩ := find_some hf
+      exact ⟨x, hx, by simp [step, setActive, hf, hid]⟩
 
 /-- **C19_mutex_serialises.** Any number of threads, each running any list of operations, under ANY
 schedule of their lock / read / write / unlock steps: at most one thread is inside a mutator, the shared
 state is the result of running SOME sequential operation sequence, and therefore satisfies the
-invariants at every point of the execution (not only at quiescence). -/
-theorem C19_mutex_serialises (progs : Nat → List Op) (sched : List Nat) :
-    let c := crun (cinit progs) sched
+invariants at every point of the execution (not only at quiescence).  From any initial state `s0`
+satisfying the invariant (any `InitOk` configuration). -/
+theorem C19_mutex_serialises (p : Mode) (s0 : St) (h0 : Inv p s0) (progs : Nat → List Op) (sched : List Nat) :
+    let c := crun (cinit s0 progs) sched
     (∀ t u, (c.thr t).phase ≠ .idle → (c.thr u).phase ≠ .idle → t = u) ∧
-    (∃ ops, c.st = run St.init ops) ∧
-    Inv c.st ∧ (c.st.modes.filter (·.normal)).length ≤ 1 := by
-  have hc := crun_inv (cinv_init progs) sched
+    (∃ ops, c.st = run s0 ops) ∧
+    Inv p c.st ∧ (c.st.modes.filter (·.normal)).length ≤ 1 := by
+  have hc := crun_inv (cinv_init s0 progs) sched
   obtain ⟨ops, hops⟩ := hc.serial
-  have hinv : Inv (crun (cinit progs) sched).st := by rw [hops]; exact run_inv inv_init ops
+  have hinv : Inv p (crun (cinit s0 progs) sched).st := by rw [hops]; exact run_inv h0 ops
   refine ⟨?_, ⟨ops, hops⟩, hinv, normal_count_le_one hinv⟩
   intro t u ht hu
   have h1 := hc.excl t ht
@@ -156,7 +182,19 @@ def mB : Mode := ⟨"b", "tb", false, none⟩
 
 /-- A reachable state with a normal mode, a second mode and a changed active mode satisfies `Inv`
 (hypothesis of C19_clear / C19_delete), and the theorems' premises are inhabited there. -/
-example : Inv (run St.init [.add mA, .add mB, .changeActive "b" 7]) := run_inv inv_init _
+example : Inv Mode.blank (run St.init [.add mA, .add mB, .changeActive "b" 7]) := run_inv inv_init _
+/-- a configured model: two initial modes (one normal) and a placeholder whose id is not a mode -/
+example : InitOk [mB, mA] ∧ (St.config [mB, mA] ⟨"boot", "", false, none⟩).modes = [mA, mB] := by
+  refine ⟨⟨by decide, ?_⟩, by decide⟩
+  intro x hx y hy hxn hyn
+  simp only [List.mem_cons, List.mem_nil_iff, or_false] at hx hy
+  rcases hx with rfl | rfl <;> rcases hy with rfl | rfl <;> first | rfl | (simp [mA, mB] at hxn hyn)
+/-- … on which setting the placeholder's own id active is refused, and deleting it is FailedPrecondition -/
+example : (step (St.config [mB, mA] ⟨"boot", "", false, none⟩) (.setActive ⟨"boot", "x", false, none⟩)).2 = .err .notFound ∧
+    (step (St.config [mB, mA] ⟨"boot", "", false, none⟩) (.delete "boot" true)).2 = .err .failedPrecondition ∧
+    (step St.init (.setActive ⟨"", "x", false, none⟩)).2 = .err .notFound := by decide
+/-- `InitOk` is needed: the code accepts a configuration with two normal modes -/
+example : ((St.config [mA, { mB with normal := true }] Mode.blank).modes.filter (·.normal)).length = 2 := by decide
 example : (run St.init [.add mA, .add mB, .changeActive "b" 7]).active = ⟨"b", "tb", false, some 7⟩ := by decide
 example : find (run St.init [.add mA, .add mB]) "c" = none ∧ mA ∈ (run St.init [.add mA, .add mB]).modes := by decide
 /-- the fixed code refuses the second normal mode … -/
@@ -169,7 +207,7 @@ example : ((updateModeUnfixed (run St.init [.add mA, .add mB]) { mB with normal 
 example : (deleteModeUnfixed St.init "c" true).2 = .err .notFound := by decide
 example : (step St.init (.delete "c" true)).2 = .ok none := by decide
 /-- A schedule in which thread 1 tries to enter while thread 0 is between its read and its write. -/
-example : (crun (cinit fun i => if i = 0 then [.add mA] else if i = 1 then [.add { mB with normal := true }] else [])
+example : (crun (cinit St.init fun i => if i = 0 then [.add mA] else if i = 1 then [.add { mB with normal := true }] else [])
     [0, 0, 1, 1, 0, 1, 0, 1, 1, 1, 1]).st.modes.map (·.id) = ["a"] := by decide
 
 end ScVerif.C19
